@@ -34,7 +34,7 @@ var implNames = []string{"slice stack", "linked stack", "slice stack of strings"
 
 func linked(impl int) bool { return impl == implLinked || impl == implLinkedStr }
 
-// Op is one call. Val is the element for Push and Search (0 = the zero value, never pushed by a generator).
+// Op is one call. Val is the element for Push and Search (0 = the zero value: pushed by half of the random cases only).
 type Op struct {
 	Kind int `json:"kind"`
 	Val  int `json:"val,omitempty"`
@@ -187,8 +187,10 @@ func enumObservers(s pbt.Src, thorough bool) Case {
 func gen(s pbt.Src, thorough bool) Case {
 	c := Case{Impl: s.Intn(nImpl)}
 	nv := 3 + s.Intn(3) // alphabet 1..nv
+	// in half of the cases the zero value is an element like any other (pushed, and the linked stack may start with it)
+	lo := s.Intn(2)
 	if linked(c.Impl) {
-		c.First = 1 + s.Intn(nv)
+		c.First = lo + s.Intn(nv+1-lo)
 	}
 	c.Every = s.Intn(4) == 0
 	maxBursts := 80
@@ -200,7 +202,7 @@ func gen(s pbt.Src, thorough bool) Case {
 		case k < 4:
 			out := make([]Op, 1+s.Intn(4))
 			for i := range out {
-				out[i] = Op{Kind: opPush, Val: 1 + s.Intn(nv)}
+				out[i] = Op{Kind: opPush, Val: lo + s.Intn(nv+1-lo)}
 			}
 			return out
 		case k < 8:
@@ -233,11 +235,11 @@ func outOfEnum(c Case, thorough bool) bool {
 	if c.Impl != implSlice && c.Impl != implLinked {
 		return true
 	}
-	if len(c.Ops) > maxLen || c.First > 3 {
+	if len(c.Ops) > maxLen || c.First > 3 || (linked(c.Impl) && c.First < 1) {
 		return true
 	}
 	for _, o := range c.Ops {
-		if o.Kind == opPush && o.Val > 3 {
+		if o.Kind == opPush && (o.Val > 3 || o.Val < 1) {
 			return true
 		}
 	}
@@ -600,14 +602,14 @@ func TestProp(t *testing.T) {
 	common := "Reference model: a slice with the top at the end. Oracle per call: Pop returns the model's top and removes it (on an empty stack: zero value, nothing changes), " +
 		"Peek returns the top (empty: zero value), Size = len(model), Search(v) = v is held, for v over the zero value, every value used and one value never pushed. " +
 		"Every case ends with the same epilogue: complete observation, drain by exactly len(model) Pops (Size and Peek after each), two Pops on the empty stack, Push(1) Push(2) Pop Pop, with a complete observation after each. " +
-		"Only non-zero elements are pushed, so the zero value unambiguously means empty. "
+		"The enumerations push non-zero elements only; half of the random cases also push the zero value (0, \"\") and may start the linked stack with it: it is an element like any other. "
 	nt := "Non-trivial = the stack was emptied by a Pop and pushed to again, or a Pop removed an element with at least one other Push/Pop between its Push and that Pop (epilogue not counted). "
 	pbt.Run(t, "C06",
 		&pbt.Check[Case]{
 			Name: "lifo",
 			Rule: common + fmt.Sprintf("Enumerated: start configurations New[int]() and NewLinked(1|2|3) x complete observation after every step on/off x every sequence over {Push(1),Push(2),Push(3),Pop} up to length %d (thorough %d). ", lifoQ, lifoT) +
-				"Random: both implementations with int and string elements, alphabet 1..3-5, up to 80 (160) bursts (1-4 Pushes | 1-6 Pops | one of Peek/Size/Search(v) | complete observation), pop-heavy so that the stack is drained, popped while empty and refilled repeatedly. " +
-				nt + "Distinct = enumerated cases (injective encoding) + hash-distinct random cases that are longer than the enumerated bound, use string elements or a value > 3.",
+				"Random: both implementations with int and string elements, alphabet 1..3-5 (or 0..3-5), up to 80 (160) bursts (1-4 Pushes | 1-6 Pops | one of Peek/Size/Search(v) | complete observation), pop-heavy so that the stack is drained, popped while empty and refilled repeatedly. " +
+				nt + "Distinct = enumerated cases (injective encoding) + hash-distinct random cases that are longer than the enumerated bound, use string elements, a value > 3 or the zero value.",
 			Enum: enumLifo, Gen: gen, Prop: prop, OutOfEnum: outOfEnum,
 			RapidQuick: 4000, RapidThorough: 50000,
 			Fixed: fixedCases,
